@@ -29,6 +29,10 @@ address it (`syspush` through the one `sys` entry object both services share).  
 the services f1, f2, f3.  A broadcast observation ends with `sent=` — the `sys.pushmsg` requests
 `impls.PushMessageByIds` sent onward (front/ids/route/payload, non-empty lists only, sorted by front) —
 and `dlb=` — what the connections of the second front-end received from them.
+direct pushes (no channel): `dpush front=F ids=N,N route=R msg=M` = channel.Service.PushMessageByIds,
+`dpush1 front=F id=N route=R msg=M` = channel.Service.PushMessageById (through the real impls single-id path);
+observation as for `bcast` plus ` cb=<completions of the callback>`.  `msg=~inf` (in any broadcast or direct
+push) stands for a value the client serializer rejects: the push goes out with empty data.
 retained channel handles (`h=N` is the identity of the N-th channel object created in this case — every
 creating operation reports it as `ch=N`; an identity not handed out yet makes the line `bad-op`):
   hjoin h=N front=F id=X | hleave h=N front=F id=X     c.Add / c.Leave on the retained *Channel
@@ -63,7 +67,9 @@ def parseIds (s : String) : Option (List Nat) :=
 def showIds (l : List Nat) : String := ",".intercalate (l.map toString)
 
 /-- the client serializer: JSON of a string made of `[A-Za-z0-9._-]` -/
-def ser (msg : String) : List Nat := [34] ++ msg.toUTF8.toList.map (·.toNat) ++ [34]
+def ser (msg : String) : List Nat :=
+  -- `~inf` stands for a value encoding/json rejects (+Inf): the push layer drops the error, the data is empty
+  if msg == "~inf" then [] else [34] ++ msg.toUTF8.toList.map (·.toNat) ++ [34]
 
 def showPush (p : Push) : String := s!"push front={p.front} ids={showIds p.ids} route={p.route} msg={p.msg}"
 
@@ -120,6 +126,7 @@ inductive Cmd
   | sdelPush (id : Nat) (ids : List Nat) (route : String) (data : List Nat)
   | bcastRace (c route msg : String) (after : Op)
   | hop (u : Nat) (o : HOp)
+  | dpush (f : String) (ids : List Nat) (route msg : String) (single : Bool)
   | bad
 
 /-- id list in which `self` stands for the id being handed out -/
@@ -190,6 +197,14 @@ def parseCmd (line : String) : Cmd :=
     | some u, some r, some m => .hop u (.hbcast u r m)
     | _, _, _ => .bad
   | some "hfree" => match (kv ws "h").bind parseU32 with | some u => .hop u (.hfree u) | none => .bad
+  | some "dpush" =>
+    match kv ws "front", (kv ws "ids").bind parseIds, kv ws "route", kv ws "msg" with
+    | some f, some ids, some r, some m => .dpush f ids r m false
+    | _, _, _, _ => .bad
+  | some "dpush1" =>
+    match kv ws "front", (kv ws "id").bind parseU32, kv ws "route", kv ws "msg" with
+    | some f, some x, some r, some m => .dpush f [x] r m true
+    | _, _, _, _ => .bad
   | some "alloctemp" => match kv ws "slot" with | some k => .alloc k | none => .bad
   | some "freetemp" => match kv ws "slot" with | some k => .free k | none => .bad
   | some "sadd" => .op .sadd
@@ -241,6 +256,10 @@ def stepCore (d : DSt) (line : String) : DSt × String :=
     -- a handle exists once the object was created
     if u == 0 || u > d.hs.st.svc.created then (d, "bad-op")
     else let r := hstep ser d.hs o; ({ d with hs := r.1 }, showObs r.2)
+  | .dpush f ids route msg single =>
+    -- Service.PushMessageByIds / PushMessageById: the tuple as given, then the push layer; one callback
+    let ps := if single then directPush1 f (ids.headD 0) route msg else directPush f ids route msg
+    (d, showObs (directObs ser d.hs.st ps) ++ " cb=1")
   | .alloc k =>
     if d.slots.contains k then (d, "bad-op")
     else
@@ -472,6 +491,36 @@ def checkBcastU (s : Spec) (target : Option Nat) (c route msg obs : String) : Op
       | _, _, _ => some ("unparseable-observation " ++ obs.take 300)
     | _ => some ("unparseable-observation " ++ obs.take 300)
 
+/-- the property on a direct push `(f, ids)`: one tuple with the caller's list; in place (listed open live
+connections, in list order) iff it addresses the issuing service and that has the component; otherwise one
+`sys.pushmsg` with the list iff the directory knows the front (its connections get the listed open live
+ones); one completion of the callback -/
+def checkDirect (s : Spec) (f : String) (ids : List Nat) (route msg obs : String) : Option String :=
+  match obs.splitOn " | " with
+  | [left, right] =>
+    let segs := (left.splitOn " ; ").drop 1
+    let rws := words right
+    match segs.mapM parsePushSeg, (kv rws "dl").bind parseDl, kv rws "once", kv rws "sent", (kv rws "dlb").bind parseDl, kv rws "cb" with
+    | some ps, some dl, some once, some sent, some dlb, some cb =>
+      let hex := hexOfBytes (ser msg)
+      let wantPs : List Push := if ids.isEmpty then [] else [⟨f, ids, route, msg⟩]
+      let inPlace := f == s.lf && !s.nosess
+      let wantDl := if inPlace then expectDl s.eff ids route hex else []
+      let wantSent := if !inPlace && directory.contains f && !ids.isEmpty then s!"{f}/{showIds ids}/{route}/{hex}" else ""
+      let wantDlb := if !inPlace && s.bname != "" && f == s.bname && directory.contains f then expectDl s.effB ids route hex else []
+      if once != "1" then some s!"front-addressed-twice a front-end is addressed more than once by one direct push: {obs.take 300}"
+      else if ps != wantPs then some s!"direct-push-tuple-mismatch the push layer must be handed exactly ({f}, [{brief ids}]): {obs.take 300}"
+      else if dl != wantDl then
+        some s!"local-delivery-mismatch connections of {s.lf} received ids [{brief (dl.map (·.1))}] from a direct push to {f} listing [{brief ids}]; open live sessions are [{showIds s.eff}]"
+      else if sent != wantSent then
+        some s!"remote-front-push-mismatch requests sent onward [{sent.take 300}] but a direct push to {f} must send [{wantSent.take 300}]"
+      else if dlb != wantDlb then
+        some s!"other-front-delivery-mismatch connections of {s.bname} received ids [{brief (dlb.map (·.1))}] from a direct push to {f} listing [{brief ids}]; its open live sessions are [{showIds s.effB}]"
+      else if cb != "1" then some s!"pushmsg-callback-count {obs.take 200}"
+      else none
+    | _, _, _, _, _, _ => some ("unparseable-observation " ++ (obs.take 300).toString)
+  | _ => some ("unparseable-observation " ++ (obs.take 300).toString)
+
 /-- a broadcast by name: on the object the name denotes now -/
 def checkBcast (s : Spec) (c route msg obs : String) : Option String := checkBcastU s (s.uidOf c) c route msg obs
 
@@ -513,6 +562,7 @@ def specCore (s : Spec) (line : String) : Spec × String :=
           out s ((checkBcastU s (some u) s!"#{u}" route msg obs).map fun why => why ++ s!" (broadcast through the retained handle #{u})")
         | .hfree _ => out (s.applyH o) (expectOk "delete-failed")
         | _ => out (s.applyH o) (expectOk "membership-op-failed")
+    | .dpush f ids route msg _ => out s (checkDirect s f ids route msg obs)
     | .bcastRace c route msg o =>
       -- every front must receive the membership as it was when the broadcast was issued
       out (s.apply o) ((checkBcast s c route msg obs).map fun why =>
